@@ -88,7 +88,8 @@ class LiquidTag(Tag):
             rules = (
                 (
                     "LIQUID_EXPR",
-                    rf"[ \t]*(?P<name>(\w+|{seq}))[ \t]*(?P<expr>.*?)[ \t\r]*?(\n+|$)",
+                    # Try the comment marker first. It might start with a word character.
+                    rf"[ \t]*(?P<name>({seq}|\w+))[ \t]*(?P<expr>.*?)[ \t\r]*?(\n+|$)",
                 ),
                 ("SKIP", r"[\r\n]+"),
                 (TOKEN_ILLEGAL, r"."),
